@@ -27,14 +27,11 @@ Proof.
   rewrite text_eqb_refl. reflexivity.
 Qed.
 Lemma subst_other cl ll i t :
-  (t_typ t <> tokText \/ (text_eqb (t_val t) cl = false /\ mem_text (t_val t) ll = false)) -> subst_body cl ll i t = t.
+  (t_typ t <> tokText \/ text_eqb (t_val t) cl = false) -> subst_body cl ll i t = t.
 Proof.
   intros H. unfold subst_body. destruct (t_typ t) eqn:E; try reflexivity.
-  destruct H as [H|[H1 H2]]; [congruence|]. rewrite H1, H2. reflexivity.
+  destruct H as [H|H]; [congruence|]. rewrite H. reflexivity.
 Qed.
-Lemma subst_label cl ll i t : t_typ t = tokText -> text_eqb (t_val t) cl = false -> mem_text (t_val t) ll = true ->
-  subst_body cl ll i t = mkT tokText (for_name cl (t_val t)).
-Proof. intros H1 H2 H3. unfold subst_body. rewrite H1, H2, H3. reflexivity. Qed.
 
 (* ---------- the reader positioned on a list of tokens ---------- *)
 Definition rd_at (l : list token) : reader :=
@@ -149,7 +146,7 @@ Lemma step_for symbols f v :
   expand_and_evaluate (f_expr f) symbols = Some (EOk v) ->
   exists f1, for_step symbols FFor f = Some (f1, Some FInnerLine) /\
     f_count f1 = v /\ f_count_label f1 = last (f_labels f) [] /\ f_line_labels f1 = init_list (f_labels f) /\
-    f_to_write f1 = Some (map (for_name (last (f_labels f) [])) (init_list (f_labels f))) /\
+    f_to_write f1 = Some (init_list (f_labels f)) /\
     f_content f1 = [] /\ f_out f1 = f_out f /\ f_rd f1 = f_rd f.
 Proof. intros H. cbn [for_step]. rewrite H. eexists. split; [reflexivity|]. cbn. auto 10. Qed.
 
